@@ -4,5 +4,6 @@ CONSTANTS
   MaxUses = 2
   RawToo = FALSE
   SeedIds = {0, 1, 2, 3, 4}
+  Subjects = {1, 2}
 SPECIFICATION Spec
 CONSTRAINT Small
